@@ -51,6 +51,8 @@ pub struct StockSrv {
     pub tcp_reply: Reply,
     /// the port the server listens on (requests to another port are lost / refused)
     pub port: u16,
+    /// answers NXDOMAIN instead of the address record
+    pub nx: bool,
 }
 
 impl StockSrv {
@@ -62,6 +64,7 @@ impl StockSrv {
             "connect": match self.conn { Conn::After(d) => json!({"after_ms": d}), Conn::BlackHole => json!("black-hole"), Conn::Refused => json!("refused") },
             "tcp_reply_ms": self.tcp_reply,
             "port": self.port,
+            "nx": self.nx,
         })
     }
     pub fn from_json(v: &Value) -> StockSrv {
@@ -81,6 +84,7 @@ impl StockSrv {
             },
             tcp_reply: v["tcp_reply_ms"].as_u64(),
             port: v["port"].as_u64().unwrap_or(53) as u16,
+            nx: v["nx"].as_bool().unwrap_or(false),
         }
     }
 }
@@ -93,6 +97,10 @@ pub struct St {
     pub owner: u16,
     /// the timeout values `connect_tcp` was called with (ms), for the witness
     pub connect_timeouts_seen: Vec<Option<u64>>,
+    /// per request seen by a server: (server, over tcp, carries EDNS, name has an upper-case letter, port)
+    pub requests_seen: Vec<(usize, bool, bool, bool, u16)>,
+    /// the local addresses sockets were asked to bind to / connect from
+    pub binds_seen: Vec<Option<SocketAddr>>,
 }
 
 #[derive(Clone)]
@@ -104,7 +112,7 @@ pub struct SimRt {
 impl SimRt {
     pub fn new(servers: Vec<StockSrv>) -> SimRt {
         SimRt {
-            st: Arc::new(Mutex::new(St { t0: tokio::time::Instant::now(), servers, log: vec![], serial: 0, owner: 1, connect_timeouts_seen: vec![] })),
+            st: Arc::new(Mutex::new(St { t0: tokio::time::Instant::now(), servers, log: vec![], serial: 0, owner: 1, connect_timeouts_seen: vec![], requests_seen: vec![], binds_seen: vec![] })),
             inner: TokioRuntimeProvider::new(),
         }
     }
@@ -138,9 +146,15 @@ fn log_end(st: &Arc<Mutex<St>>, serial: u64) {
 }
 
 /// The server's response to the request bytes (None: the bytes are not a DNS query).
-fn respond(request: &[u8], srv: usize, tcp: bool, truncated: bool) -> Option<(Vec<u8>, u8)> {
+fn respond(st: &Arc<Mutex<St>>, port: u16, request: &[u8], srv: usize, tcp: bool, truncated: bool) -> Option<(Vec<u8>, u8)> {
     let req = Message::from_vec(request).ok()?;
     let q = req.queries.first()?.clone();
+    let nx = {
+        let mut g = st.lock().unwrap();
+        let upper = q.name.to_ascii().chars().any(|c| c.is_ascii_uppercase());
+        g.requests_seen.push((srv, tcp, req.edns.is_some(), upper, port));
+        g.servers.get(srv).map(|s| s.nx).unwrap_or(false)
+    };
     let tag = tag_of(&q.name);
     let mut m = Message::new(req.metadata.id, MessageType::Response, OpCode::Query);
     m.metadata.recursion_desired = req.metadata.recursion_desired;
@@ -149,6 +163,8 @@ fn respond(request: &[u8], srv: usize, tcp: bool, truncated: bool) -> Option<(Ve
     m.add_query(q.clone());
     if truncated {
         m.metadata.truncation = true;
+    } else if nx {
+        m.metadata.response_code = hickory_proto::op::ResponseCode::NXDomain;
     } else {
         m.add_answer(Record::from_rdata(q.name.clone(), 60, RData::A(A::new(10, tcp as u8, tag, srv as u8 + 1))));
     }
@@ -170,6 +186,7 @@ struct TcpSt {
 pub struct SimTcp {
     st: Arc<Mutex<St>>,
     srv: usize,
+    port: u16,
     c: Mutex<TcpSt>,
 }
 
@@ -192,7 +209,7 @@ impl AsyncWrite for SimTcp {
             }
             let frame: Vec<u8> = c.wbuf[2..2 + len].to_vec();
             c.wbuf.drain(..2 + len);
-            let Some((bytes, tag)) = respond(&frame, self.srv, true, false) else { continue };
+            let Some((bytes, tag)) = respond(&self.st, self.port, &frame, self.srv, true, false) else { continue };
             match reply {
                 Some(d) => {
                     let serial = log_start(&self.st, false, self.srv, true, tag, format!("answer:{d}"));
@@ -311,7 +328,7 @@ impl DnsUdpSocket for SimUdp {
         let listening = cfg.port == target.port() && cfg.proto != 1;
         let truncates = cfg.proto == 2;
         let reply: Reply = if truncates { Some(10) } else { cfg.udp_reply };
-        if let Some((bytes, tag)) = respond(buf, srv, false, truncates) {
+        if let Some((bytes, tag)) = respond(&self.st, target.port(), buf, srv, false, truncates) {
             let mut c = self.c.lock().unwrap();
             match reply {
                 Some(d) if listening => {
@@ -343,8 +360,9 @@ impl RuntimeProvider for SimRt {
         self.inner.create_handle()
     }
 
-    fn connect_tcp(&self, server_addr: SocketAddr, _bind_addr: Option<SocketAddr>, timeout: Option<Duration>) -> Pin<Box<dyn Send + Future<Output = io::Result<SimTcp>>>> {
+    fn connect_tcp(&self, server_addr: SocketAddr, bind_addr: Option<SocketAddr>, timeout: Option<Duration>) -> Pin<Box<dyn Send + Future<Output = io::Result<SimTcp>>>> {
         let st = self.st.clone();
+        st.lock().unwrap().binds_seen.push(bind_addr);
         let srv = server_of(server_addr.ip());
         let cfg = st.lock().unwrap().servers.get(srv).cloned();
         st.lock().unwrap().connect_timeouts_seen.push(timeout.map(|t| t.as_millis() as u64));
@@ -386,12 +404,13 @@ impl RuntimeProvider for SimRt {
                     };
                 }
             }
-            r.map(|()| SimTcp { st: st.clone(), srv, c: Mutex::new(TcpSt { wbuf: vec![], inbound: VecDeque::new(), rbuf: VecDeque::new(), sleep: None, waker: None }) })
+            r.map(|()| SimTcp { st: st.clone(), srv, port: server_addr.port(), c: Mutex::new(TcpSt { wbuf: vec![], inbound: VecDeque::new(), rbuf: VecDeque::new(), sleep: None, waker: None }) })
         })
     }
 
-    fn bind_udp(&self, _local_addr: SocketAddr, _server_addr: SocketAddr) -> Pin<Box<dyn Send + Future<Output = io::Result<SimUdp>>>> {
+    fn bind_udp(&self, local_addr: SocketAddr, _server_addr: SocketAddr) -> Pin<Box<dyn Send + Future<Output = io::Result<SimUdp>>>> {
         let st = self.st.clone();
+        st.lock().unwrap().binds_seen.push(Some(local_addr));
         Box::pin(async move { Ok(SimUdp { st, c: Mutex::new(UdpSt { inbound: VecDeque::new(), sleep: None, waker: None }) }) })
     }
 }
